@@ -409,6 +409,9 @@ void eval_svx(Ctx &x, int opi, const OpSpec &op, const XOut &xo, const std::vect
     if (ri0.singular) { o.excl["ref_singular"]++; return; }
     if (!(info == 0 || info == n + 1)) {
         if (info > 0 && info <= n && ri0.cond1 * n * eps > 0.01L) { o.excl["ill_conditioned_info_gt0"]++; return; }
+        // with the threshold (nearly) switched off a rounding-level diagonal is accepted as pivot, growth is unbounded and an exact zero later is
+        // legitimate (the same exclusion the simple-driver oracle has; found at VERIF_SEED=29 with u = 0 and dyadic values)
+        if (info > 0 && info <= n && op.x.u < 0.01) { o.excl["weak_pivoting_info_gt0"]++; return; }
         if (info > n + 1 && op.x.lwork > 0 && c.profile != "alloc" && c.profile != "leak") { add_viol(o, "C14", "sufficient_workspace_reported_exhausted", fmt("info=%ld n=%d lwork=%ld: the caller workspace is twice a generous estimate of the need", info, n, op.x.lwork), opi); return; }
         if (info > n + 1 && op.x.lwork > 0) { o.excl["caller_workspace_exhausted"]++; return; }
         add_viol(o, "C07", "info_not_0_or_n_plus_1", fmt("info=%ld n=%d cond1=%.3Le", info, n, ri0.cond1), opi); return;
